@@ -67,6 +67,10 @@ type Case struct {
 
 type traceKey struct{}
 
+// tracer is kept out of line on purpose: every middleware of a case, router-wide or route-specific, is then a closure of one
+// and the same function literal (same code, different captured id) - what a table- or loop-built configuration looks like.
+//
+//go:noinline
 func tracer(id string) fox.MiddlewareFunc {
 	return func(next fox.HandlerFunc) fox.HandlerFunc {
 		return func(c fox.Context) {
